@@ -66,7 +66,7 @@ if __name__ == "__main__":
         obl = [o for o in r["obligations"] if o["kind"] != "canary"]
         ok = sum(o["status"] == "discharged" for o in obl)
         vac = sum(o["status"] == "vacuous" for o in r["obligations"])
-        print(f"{r['qual']}: {r['status']} {r['reason'][:3000]} paths={r['paths']} {ok}/{len(obl)} discharged, vacuous={vac}, gen {r['gen_s']:.1f}s solve {r['solve_s']:.1f}s")
+        print(f"{r['qual']}: {r['status']} {r['reason'][-700:]} paths={r['paths']} {ok}/{len(obl)} discharged, vacuous={vac}, gen {r['gen_s']:.1f}s solve {r['solve_s']:.1f}s")
         for o in r["obligations"]:
             if o["status"] not in ("discharged", "ok") or verbose:
                 print("   ", o["status"], o["name"], o["tag"], o["time"], o["reason"], "|", " > ".join(o["trace"][-3:]))
